@@ -382,12 +382,15 @@ def do_replay(prop, path):
     U.load_property(prop)
     mod = importlib.import_module("contracts.%s" % prop)
     if body.get("kind") != "native":
-        print("replay file names obligation %s (%s); no concrete input is attached; re-running the unit" % (
-            body.get("obligation"), body.get("status")))
+        had = (body.get("native_replay") or {}).get("confirmed")
+        print("replay file names obligation %s (%s); %s; re-running the unit on this tree" % (
+            body.get("obligation"), body.get("status"),
+            "the counter-model's concrete inputs are attached (native_replay.inputs)" if had else "no concrete input is attached"))
         res = U.run_units(prop, "quick", 0, [body["unit"]], 1)
         bad = [o for r in res for o in r["obligations"] if o["name"] == body["obligation"] and o["status"] != "proved"]
         if bad:
-            print("VIOLATION property=%s replay=%s no-failing-input-found" % (prop, os.path.relpath(path, VERIF)))
+            conf = any((o.get("native") or {}).get("confirmed") for o in bad)
+            print("VIOLATION property=%s replay=%s%s" % (prop, os.path.relpath(path, VERIF), "" if conf else " no-failing-input-found"))
             return 1
         print("obligation discharged on this tree")
         return 0
